@@ -196,9 +196,49 @@ def run_case(g, idx, budget, tap, res):
     p_ratio = float(round(g.uniform(0.6, 1.0), 2)) if use_perimeter else None
     nogo = []
     if with_nogo:
-        ng = GLOT.inner_convex(g, ccw(poly), margin=max(2.0, 0.3 * s))
-        if ng:
-            nogo.append([tuple(p) for p in ng])
+        # one to three disjoint convex zones, listed in random order (rows cross them in any order along the row direction)
+        want = int(g.choice([1, 2, 2, 3]))
+        discs = []
+        if idx % 14 == 5:
+            # two narrow zones side by side, closer together than the spacing and of different widths: the widened gaps the row
+            # generator leaves around narrow crossings overlap
+            from vf.oracle import polygon as OP
+
+            cc_ = ccw(poly)
+            cx0 = sum(p[0] for p in poly) / len(poly)
+            cy0 = sum(p[1] for p in poly) / len(poly)
+            for _try in range(30):
+                w_a, w_c = float(g.uniform(0.02, 0.9)) * s, float(g.uniform(0.02, 0.9)) * s
+                gap = float(g.uniform(0.3, 0.5 * s))
+                hgt = float(g.uniform(0.6, 2.5)) * s
+                th = float(g.uniform(0, math.pi))
+                ox, oy = cx0 + float(g.uniform(-0.15, 0.15)) * s * 3, cy0 + float(g.uniform(-0.15, 0.15)) * s * 3
+
+                def place(x0, x1, th=th, ox=ox, oy=oy, hgt=hgt):
+                    return [(round(ox + x * math.cos(th) - y * math.sin(th), 6), round(oy + x * math.sin(th) + y * math.cos(th), 6))
+                            for x, y in ((x0, -hgt / 2), (x1, -hgt / 2), (x1, hgt / 2), (x0, hgt / 2))]
+
+                za = place(-gap / 2 - w_a, -gap / 2)
+                zc = place(gap / 2, gap / 2 + w_c)
+                if all(OP.crossing_inside_exact(cc_, p) and OP.boundary_dist(cc_, p) >= max(2.0, 0.3 * s) for p in za + zc):
+                    nogo.extend([za, zc] if g.random() < 0.5 else [zc, za])
+                    res["paired_narrow_nogo"] = res.get("paired_narrow_nogo", 0) + 1
+                    want = 0
+                    break
+        for _try in range(want * 4):
+            if len(nogo) >= want:
+                break
+            ng = GLOT.inner_convex(g, ccw(poly), margin=max(2.0, 0.3 * s), size_frac=(0.1, 0.3) if want == 1 else (0.08, 0.2))
+            if not ng:
+                continue
+            cx_ = sum(p[0] for p in ng) / len(ng)
+            cy_ = sum(p[1] for p in ng) / len(ng)
+            rad = max(math.hypot(p[0] - cx_, p[1] - cy_) for p in ng)
+            if all(math.hypot(cx_ - a, cy_ - b) > rad + r2 + 0.5 for a, b, r2 in discs):
+                discs.append((cx_, cy_, rad))
+                nogo.append([tuple(p) for p in ng])
+        if len(nogo) > 1:
+            res["multi_nogo"] = res.get("multi_nogo", 0) + 1
     case = {"outline": poly, "spacing": s, "rot_window_deg": [lo / DEG, hi / DEG], "rotate_step": step, "perimeter_ratio": p_ratio, "no_go": nogo}
     out = []
 
@@ -264,12 +304,14 @@ def run_case(g, idx, budget, tap, res):
         return out, case, False
     # inside / on the outline
     sd = signed_inside_distance(cc, pts)
-    if sd.min() < -1e-6:
+    # "on the outline" is judged with twice the tool's own intersection tolerance (1e-5 m, the default of every row/edge intersection):
+    # a row that is parallel to an edge to within 0.001 deg lands 2.8e-6 m beside the vertex it passes through (thorough tier witness)
+    if sd.min() < -2e-5:
         k = int(sd.argmin())
         bad("borehole-outside-outline" + (":perimeter" if use_perimeter else ""), f"{tuple(pts[k])} lies {-sd.min():.3g} m outside the outline")
     for z in nogo:
         sz = signed_inside_distance(ccw(z), pts)
-        if sz.max() > 1e-6:
+        if sz.max() > 2e-5:
             k = int(sz.argmax())
             bad("borehole-inside-no-go-zone" + (":perimeter" if use_perimeter else ""), f"{tuple(pts[k])} lies {sz.max():.3g} m inside a no-go zone")
     # rotations tried and arg-max
@@ -419,8 +461,8 @@ def check(tier, seed):
             continue
         rep.evaluations += r["cases"]
         ok_mon = ok_mon and r["monitoring"]
-        for k in ("skipped_degenerate", "translations", "rectangles", "rect_near_tie_skipped", "line_events", "gen_hits", "perimeter", "nogo"):
-            rep.count(k, r[k])
+        for k in ("skipped_degenerate", "translations", "rectangles", "rect_near_tie_skipped", "line_events", "gen_hits", "perimeter", "nogo", "multi_nogo", "paired_narrow_nogo"):
+            rep.count(k, r.get(k, 0))
         rep.count("whole_number_outlines_passed_as_ints", r.get("int_outlines", 0))
         rep.count("translation_clause_skipped_for_whole_number_polygons", r.get("translation_skipped_whole_number_polygon", 0))
         rep.count("skipped_no_borehole_fits_under_perimeter_rules", r.get("skipped_no_borehole_fits", 0))
